@@ -33,6 +33,32 @@ pub fn run(which: &str) {
                 Err(p) => println!("bfsorder-fused: {k} items, then None, then PANIC({})", sanitize(&p)),
             }
         }
+        "dcf-last" => {
+            // C10: ParGraph::with_dcf on a graph whose last nodes have no successors
+            use sux::traits::{IndexedSeq, SuccUnchecked};
+            let mut g = VecGraph::empty(3);
+            g.add_arc(0, 1);
+            let dcf = g.build_dcf();
+            let vals: Vec<u64> = (0..dcf.len()).map(|i| dcf.get(i)).collect();
+            println!("dcf-last: dcf={vals:?}");
+            for t in 1..=3u64 {
+                println!("dcf-last: succ_unchecked({t})={:?}", if t <= 1 { Some(unsafe { dcf.succ_unchecked::<false>(&t) }) } else { None });
+            }
+            let chunks: Vec<_> = sux::utils::FairChunks::new_with(1, &dcf, 3, 1).collect();
+            println!("dcf-last: FairChunks::new_with(1,dcf,3,1)={chunks:?}");
+            let chunks: Vec<_> = sux::utils::FairChunks::new(1, &dcf).collect();
+            println!("dcf-last: FairChunks::new(1,dcf)={chunks:?}");
+            let pg = ParGraph::with_dcf(g.clone(), 1, &dcf, 1);
+            let (ls, bs) = (&pg).into_par_lenders();
+            println!("dcf-last: with_dcf(k=1) boundaries={bs:?} lenders={}", ls.len());
+            let dcf2 = g.build_dcf();
+            let pg = ParGraph::with_dcf(g.clone(), g.num_arcs(), dcf2, 1);
+            let (ls, bs) = (&pg).into_par_lenders();
+            println!("dcf-last: with_dcf(k=1, dcf by value) boundaries={bs:?} lenders={}", ls.len());
+            let dcf3 = g.build_dcf();
+            let chunks: Vec<_> = sux::utils::FairChunks::new_with(1, dcf3, 3, 1).collect();
+            println!("dcf-last: FairChunks::new_with(1,dcf by value,3,1)={chunks:?}");
+        }
         _ => println!("unknown probe"),
     }
 }
